@@ -43,7 +43,8 @@ Definition verdict_with (check : chan -> bool) (c : case) : Z * Z :=
   fold_left (fun acc ch => let d := chan_diff ch in
                            worse acc (verdict_code (d =? -1) (check ch), d)) c (0, -1).
 
-Definition chan_check (c : chan) : bool := C01_check (c_npre c) (c_nsamp c) (c_ts c) (c_F0 c) (c_hist c).
+(* the gap-tolerant judgement (Spec.v): for a contiguous source it coincides with C01_check *)
+Definition chan_check (c : chan) : bool := C01G_check (c_npre c) (c_nsamp c) (c_hist c).
 Definition verdict (c : case) : Z * Z := verdict_with chan_check c.
 
 (* compact constructors for generated files *)
